@@ -70,7 +70,7 @@ func universe() []namedVal {
 	return []namedVal{
 		{"nil", nil}, {"mainname", "main"}, {"bname", "b"},
 		{"sEmpty", ""}, {"sAbc", "abc"}, {"sBadUtf8", "\xff\xfea\xc3"}, {"sMulti", "é€𝄞"}, {"sUrlMb", "www.é€" + strings.Repeat("𝄞", 30) + " x@y.de€𝄞 http://" + strings.Repeat("𝄞€", 20) + " a.de𝄞𝄞𝄞"}, {"sNum", "12"}, {"sFloat", "1.5"}, {"sCsv", "a,b"}, {"sColon", "1:2"}, {"sHtml", "<b>&</b>"}, {"sPct", "%d%s%!"}, {"sLt", "1<2"}, {"sLtEnd", "one two <"}, {"sLtOpen", "a <b"}, {"sAmp", "a &amp b &"}, {"sTagOpen", "<a href=\"x"}, {"sClose", "</"}, {"sCmt", "<!-- x"}, {"sGt", "a > b >"}, {"sNL", "l1\nl2\r\n\nl4"}, {"sLong", string(make([]byte, 300))},
-		{"i0", 0}, {"i1", 1}, {"iNeg", -1}, {"iBig", 99999}, {"iMax", int64(math.MaxInt64)}, {"iMin", int64(math.MinInt64)}, {"i8", int8(-128)}, {"u8", uint8(255)}, {"uMax", uint64(math.MaxUint64)}, {"u0", uint(0)}, {"i32", int32(7)},
+		{"i0", 0}, {"i1", 1}, {"iNeg", -1}, {"iBig", 99999}, {"iMax", int64(math.MaxInt64)}, {"iMin", int64(math.MinInt64)}, {"iNegHuge", int64(-(1 << 62))}, {"sNegHuge", "-4611686018427387904"}, {"i8", int8(-128)}, {"u8", uint8(255)}, {"uMax", uint64(math.MaxUint64)}, {"u0", uint(0)}, {"i32", int32(7)},
 		{"f0", 0.0}, {"f15", 1.5}, {"fHalf", 0.25}, {"fNegHalf", -0.5}, {"f32Half", float32(0.5)}, {"sFrac", "0.9"}, {"sNegFrac", "-0.4"}, {"fNeg0", math.Copysign(0, -1)}, {"fNaN", math.NaN()}, {"fInf", math.Inf(1)}, {"fNInf", math.Inf(-1)}, {"fMax", math.MaxFloat64}, {"f32", float32(1.5)}, {"fHuge", 1e300},
 		{"bT", true}, {"bF", false},
 		{"slE", []int{}}, {"slI", []int{1, 2, 3}}, {"slS", []string{"a", "b"}}, {"slA", []any{nil, 1, "x", []int{1}}}, {"slN", []int(nil)}, {"sl2", [][]int{{1}, {}}}, {"slB", []byte("bytes")},
@@ -95,6 +95,8 @@ func universe() []namedVal {
 		{"fnNilValue", func() *pongo2.Value { return nil }}, {"fnNilValueErr", func() (*pongo2.Value, error) { return nil, nil }},
 		// values that contain themselves
 		{"pCyc", pCyc},
+		// Stringers whose String method is promoted through something that is nil
+		{"embNilStringer", struct{ fmt.Stringer }{}}, {"embNilPtrStr", nilEmbStr{}}, {"pEmbNilPtrStr", &nilEmbStr{}},
 		{"fnVarS", func(p string, xs ...string) string { return p }}, {"fnVarV", func(xs ...*pongo2.Value) int { return len(xs) }}, {"fnVarA", func(xs ...any) int { return len(xs) }},
 	}
 }
@@ -111,6 +113,9 @@ func universeCtx() pongo2.Context {
 }
 
 type uncmp struct{ X any }
+
+// nilEmbStr gets String() from an embedded pointer that is nil
+type nilEmbStr struct{ *str }
 
 type cycNode struct {
 	Name string
